@@ -86,6 +86,36 @@ fn main() -> Result<(), Box<dyn std::error::Error>> {
         );
     }
 
+    // X1/X2: fs::index on a multi-reference slice that holds a placed read without bases (flag 0x4,
+    // RNAME/POS set, SEQ *, CIGAR *), e.g. an unmapped mate stored without sequence
+    for (label, pos) in [("X1 placed SEQ-less read at POS 1", 1usize), ("X2 placed SEQ-less read at POS 5", 5)] {
+        let refs = vec![
+            fasta::Record::new(Definition::new("sq0", None), FaSequence::from(b"ACGTACGTAC".to_vec())),
+            fasta::Record::new(Definition::new("sq1", None), FaSequence::from(b"TTGACCAGTA".to_vec())),
+        ];
+        let repo = fasta::Repository::new(refs);
+        let mut w = cram::io::writer::Builder::default().set_reference_sequence_repository(repo).build_from_writer(Vec::new());
+        w.write_header(&header)?;
+        w.write_alignment_record(&header, &rec("on_sq0", 0, b"ACGT"))?;
+        let placed = RecordBuf::builder()
+            .set_name("placed")
+            .set_flags(Flags::UNMAPPED)
+            .set_reference_sequence_id(1)
+            .set_alignment_start(Position::new(pos).unwrap())
+            .build();
+        w.write_alignment_record(&header, &placed)?;
+        w.try_finish(&header)?;
+        let mut tmp = tempfile::NamedTempFile::new()?;
+        tmp.write_all(&w.into_inner())?;
+        tmp.flush()?;
+        let path = tmp.path().to_path_buf();
+        match panic::catch_unwind(|| cram::fs::index(&path)) {
+            Ok(Ok(i)) => println!("{label}: fs::index Ok, {} entries", i.len()),
+            Ok(Err(e)) => println!("{label}: fs::index Err({e})"),
+            Err(p) => println!("{label}: fs::index PANIC {:?}", p.downcast_ref::<&str>().map(|s| s.to_string()).or(p.downcast_ref::<String>().cloned())),
+        }
+    }
+
     // G4-a: sequential reading again after the end of the stream was reached
     let n = r.records(&h).count();
     println!("G4-a after the query: records() to the end yields {n} more records");
